@@ -16,6 +16,12 @@ Quirks are modelled as they are in the code:
 * ns precision divides with Go's truncating `/`; ms/s fall back to *now* outside the overflow guard;
 * Go maps are modelled as association lists (insertion order, last write wins); the driver sorts.
 
+* the parser is modelled as a PURE FUNCTION of (precision, payload): no state is carried between or
+  among calls.  `LineProtocolHandler` shares one `LineProtocolParser` among all request goroutines, so
+  this is a real assumption about the source; it is tied by the regenerated facts
+  `Generated.C01.parserFields = []` / `parserReceiverWrites = []` (theorem `C01_parser_stateless`)
+  and exercised by the harness's concurrency stage (one shared instance, 2–8 goroutines).
+
 `pf` = `strconv.ParseFloat(·, 64)` (bit pattern, `none` on error) is a parameter; `now` is the value
 of `time.Now().UnixMicro()`.  Core Lean only, executable.
 -/
